@@ -7,6 +7,7 @@ import Pike.Driver.Resp
 import Pike.Driver.Sched
 import Pike.Driver.Codecs
 import Pike.Driver.Config
+import Pike.Driver.Upsel
 open Pike.Driver
 
 structure St where
@@ -21,6 +22,7 @@ def judgeLine (st : St) (line : String) : St × String :=
   | "race" :: "bad" :: _ => (st, "ok race-bad 1 TRIP wrong_body_for_key")
   | "sched" :: rest => let (d, v) := judgeSched st.sched rest; ({ st with sched := d }, v)
   | "resp" :: rest => let (d, v) := judgeResp st.resp rest; ({ st with resp := d }, v)
+  | "upsel" :: rest => (st, judgeUpsel rest)
   | "config" :: rest => (st, judgeConfig rest)
   | "codecs" :: rest => (st, judgeCodecs rest)
   | "codec" :: rest => (st, judgeCodec rest)
